@@ -156,6 +156,15 @@ func (o *Oblig) scriptOpt(withModel, relaxed bool) string {
 			asserts.WriteString(")\n")
 		}
 	}
+	for _, gf := range r.globalFacts {
+		// facts about package-level objects that occur in the query
+		if i := strings.Index(gf, "(obj "); i >= 0 {
+			j := strings.Index(gf[i:], ")")
+			if j > 0 && strings.Contains(asserts.String(), gf[i:i+j+2]) || strings.Contains(asserts.String(), gf[i:i+j+1]+")") {
+				asserts.WriteString("(assert " + gf + ")\n")
+			}
+		}
+	}
 	atext := asserts.String()
 	toks := tokenSet(atext)
 	var lits strings.Builder
